@@ -169,6 +169,19 @@ def install_recorder():
     if hasattr(creaction, "set_objective"):
         creaction.set_objective = set_objective
 
+    # what the undo functions of a context do on the way out is the restore itself, not a write of the analysis
+    from cobra.util.context import HistoryManager
+    orig_reset = HistoryManager.reset
+
+    @functools.wraps(orig_reset)
+    def reset(self, *a, **k):
+        REC.depth += 1
+        try:
+            return orig_reset(self, *a, **k)
+        finally:
+            REC.depth -= 1
+    HistoryManager.reset = reset
+
     # optlang level
     def wrap_raw_method(owner, name, comp):
         orig = getattr(owner, name)
@@ -178,6 +191,29 @@ def install_recorder():
             REC.raw(comp, self)
             return orig(self, *a, **k)
         setattr(owner, name, w)
+    # constraints / variables handed to the solver directly (outside cobrapy's add_cons_vars / remove_cons_vars)
+    for nm in ("add", "remove"):
+        orig_m = getattr(G.Model, nm)
+
+        def make(orig_m):
+            @functools.wraps(orig_m)
+            def w(self, *a, **k):
+                if REC.model is not None and REC.depth == 0 and self is REC.model.solver:
+                    # cobrapy's own context-aware helpers (cobra.util.solver) end in solver.add / solver.remove and record the undo themselves
+                    f = sys._getframe(1)
+                    prim = False
+                    for _ in range(6):
+                        if f is None:
+                            break
+                        if f.f_code.co_name in ("add_cons_vars_to_problem", "remove_cons_vars_from_problem", "fix_objective_as_constraint",
+                                                "add_absolute_expression", "add_lp_feasibility", "add_lexicographic_constraints"):
+                            prim = True
+                            break
+                        f = f.f_back
+                    REC.seen.add("ctxWrite:consvars" if prim else "rawWrite:solver")
+                return orig_m(self, *a, **k)
+            return w
+        setattr(G.Model, nm, make(orig_m))
     wrap_raw_method(G.Objective, "set_linear_coefficients", "objective")
     wrap_raw_method(G.Constraint, "set_linear_coefficients", "solver")
 
@@ -293,7 +329,9 @@ def run_analysis(name, m, a, rng_seed):
     if name == "minimal_medium":
         res = minimal_medium(m, min_objective_value=a.get("min_obj", 0.1), exports=a.get("exports", False),
                              minimize_components=a.get("components", False), open_exchanges=a.get("open", False))
-        return None if res is None else (rnd(float(res[res > 0].sum())) if not a.get("components") else int((res > 1e-6).sum()))
+        if res is None or a.get("components") not in (False, None, True):
+            return None if res is None else "some"       # alternative media come as a frame; only the single-medium answers are compared
+        return rnd(float(res[res > 0].sum())) if not a.get("components") else int((res > 1e-6).sum())
     if name == "gapfill":
         uni = Model("universe")
         r = Reaction("GF_1")
@@ -343,7 +381,8 @@ def gen_args(rng, name):
     if name == "assess_component":
         a["side"] = rng.choice(["products", "reactants"])
     if name == "minimal_medium":
-        a.update(min_obj=rng.choice([0.1, 1, 50, 2000]), exports=rng.random() < 0.3, components=rng.random() < 0.3, open=rng.choice([False, False, True, 50]))
+        a.update(min_obj=rng.choice([0.1, 1, 50, 2000]), exports=rng.random() < 0.3, components=rng.choice([False, False, True, 2, 3]),
+                 open=rng.choice([False, False, True, 50]))
     if name == "gapfill":
         a.update(demand=rng.random() < 0.7, exchange=rng.random() < 0.3, lower=rng.choice([0.05, 1, 5000]))
     if name == "sample":
@@ -365,6 +404,9 @@ def gen_spec(rng):
         if r["ub"] == "inf" and rng.random() < 0.7:
             r["ub"] = "1000"
         r["rule"] = rng.choice(["", "g1", "g1 and g2", "g2 or g3", "(g1 or g2) and g3"])
+    if rng.random() < 0.12:
+        spec["obj"] = {}                 # a model without objective
+        spec["dir"] = rng.choice(["min", "max"])
     return spec
 
 
@@ -437,10 +479,13 @@ ANALYSES = ["optimize", "slim_optimize", "flux_variability_analysis", "find_bloc
 def gen_case(rng, kinds):
     name = rng.choice(ANALYSES)
     pre = []
-    if rng.random() < 0.5:
+    k = rng.random()
+    if k < 0.45:
         pre = ["enter"] + rng.sample(["ko", "bound", "obj"], rng.randint(0, 2))
         if rng.random() < 0.3:
             pre += ["enter"]
+    elif k < 0.6:
+        pre = rng.sample(["ko", "bound", "obj"], rng.randint(1, 2))        # permanent edits of the user's, no context
     return {"spec": gen_spec(rng), "analysis": name, "args": gen_args(rng, name), "pre": pre, "seed": rng.randint(0, 10 ** 6),
             "static_kinds": kinds.get(name, [])}
 
